@@ -2,15 +2,29 @@
    REAL _CheckSig (wrapped only to record its answers as the oracle table), real
    transactions, in- and out-of-range input indices.  IMPL's observation is
      [outcome; oracle table; side-effect flag; captured error state]
-   the model echoes the last three (it is a pure function) and recomputes the outcome. *)
-From BV Require Import Common.Base Common.Hash Common.Tx Common.ScriptFlags Model.Script Model.ScriptEval Spec.ScriptRef Run.TxVal Run.C06.
+   the model echoes the oracle table and the side-effect flag (it is a pure function),
+   recomputes the outcome (Model/ScriptEval.v verify_script) and recomputes the captured error
+   state with the instrumented interpreter (Model/ScriptEvalSt.v verify_script_st):
+     [len(e.stack) + len(e.altstack); e.nOpCount; e.pbegincodehash; e.sop_pc; len(e.scriptIn)]
+   for an EvalScriptError raised through err_raiser by whichever of the three evaluations
+   failed, [] otherwise (normal return, VerifyScriptError, or an EvalScriptError raised outside
+   the loop, whose altstack / nOpCount / sop_pc are None).  So the state that
+   C07_error_state_bounds bounds is compared with IMPL's on every case. *)
+From BV Require Import Common.Base Common.Hash Common.Tx Common.ScriptFlags Model.Script Model.ScriptEval Model.ScriptEvalSt Spec.ScriptRef Run.TxVal Run.C06.
 
+(* the limits of Props/C07.v C07_error_state_bounds (1000 + 3, 201 + 20: both attained) *)
 Definition err_state_ok (v : val) : bool :=
   match v with
   | VList [] => true                                  (* no EvalScriptError state captured *)
   | VList [VInt items; VInt nop; VInt pbegin; VInt pc; VInt slen] =>
-      (items <=? 1000 + 3) && (nop <=? 201 + 21) && (0 <=? pbegin) && (pbegin <=? pc) && (pc <? slen) && (slen <=? 10000)
+      (items <=? 1000 + 3) && (0 <=? nop) && (nop <=? 201 + 20) && (0 <=? pbegin) && (pbegin <=? pc) && (pc <? slen) && (slen <=? 10000)
   | _ => false
+  end.
+
+Definition cap_val {A} (r : xres A) : val :=
+  match r with
+  | XFail c => VList [VInt (c_stack c + c_alt c); VInt (c_nop c); VInt (c_pb c); VInt (c_pc c); VInt (c_len c)]
+  | _ => VList []
   end.
 
 Definition run_C07 (op : Z) (args : list val) : val :=
@@ -19,7 +33,8 @@ Definition run_C07 (op : Z) (args : list val) : val :=
       let cs := lookup tbl in
       let fl := flags_of f in
       let m := verify_script cs ripemd160_ref sha1 sha256 fl ssig spk in
-      VList [VList [vres (fun _ => VInt 0) m; VList tbl; VInt side; es];
+      let x := verify_script_st cs ripemd160_ref sha1 sha256 fl ssig spk in
+      VList [VList [vres (fun _ => VInt 0) m; VList tbl; VInt side; cap_val x];
              vbool ((val_eqb io (VInt 0) || is_validation_val io) && (side =? 1) && err_state_ok es)]
   | _, _ => bad_args
   end.
